@@ -4,6 +4,7 @@ import (
 	"crypto/hmac"
 	"crypto/sha1"
 	"crypto/sha256"
+	"crypto/sha512"
 	"encoding/base64"
 	"encoding/hex"
 	"fmt"
@@ -377,7 +378,78 @@ func mac256(secret, msg string) []byte {
 var sigVariants = []string{
 	"valid", "valid-std", "valid-nopad", "valid-tailbits", "valid-newline",
 	"other-uri", "other-ts", "truncated", "half-mac", "empty", "wrong-secret",
-	"swapped-order", "separator", "sha1", "hex", "garbage", "client-id-as-key", "unkeyed-sha256",
+	"swapped-order", "separator", "sha1", "sha512", "sha512-first-32-bytes", "hex", "garbage", "unkeyed-sha256",
+}
+
+// Correctly constructed HMAC-SHA256(key, uri || ts) under keys that are NOT the proxy client secret.
+// The names are resolved by altKeys (built per stack, it knows the stack's other secrets).
+var keyVariants = []string{
+	"hmac-under-empty-key", "hmac-under-space-key", "hmac-under-nul-key",
+	"hmac-under-proxy-client-id", "hmac-under-idp-client-id", "hmac-under-idp-client-secret",
+	"hmac-under-cookie-secret-base64", "hmac-under-cookie-secret-bytes", "hmac-under-code-key-base64", "hmac-under-code-key-bytes",
+	"hmac-under-word-secret", "hmac-under-word-changeme", "hmac-under-word-null", "hmac-under-word-undefined",
+	"hmac-under-secret-one-char-case-flipped", "hmac-under-secret-minus-last-char", "hmac-under-secret-plus-newline",
+	"hmac-under-secret-doubled", "hmac-under-secret-lowercased", "hmac-under-secret-uppercased", "hmac-under-secret-sha256-hex",
+}
+
+func init() { sigVariants = append(sigVariants, keyVariants...) }
+
+func flipOneCase(s string) string {
+	b := []byte(s)
+	for i := len(b) / 2; i < len(b); i++ {
+		if b[i] >= 'a' && b[i] <= 'z' {
+			b[i] -= 32
+			return string(b)
+		}
+		if b[i] >= 'A' && b[i] <= 'Z' {
+			b[i] += 32
+			return string(b)
+		}
+	}
+	return s + "x"
+}
+
+// altKeys returns the wrong keys by variant name.
+func altKeys(secret, clientID, idpID, idpSecret, cookieSecretB64, codeKeyB64 string) map[string]string {
+	dec := func(b64 string) string { b, _ := base64.StdEncoding.DecodeString(b64); return string(b) }
+	sum := sha256.Sum256([]byte(secret))
+	return map[string]string{
+		"hmac-under-empty-key":                    "",
+		"hmac-under-space-key":                    " ",
+		"hmac-under-nul-key":                      "\x00",
+		"hmac-under-proxy-client-id":              clientID,
+		"hmac-under-idp-client-id":                idpID,
+		"hmac-under-idp-client-secret":            idpSecret,
+		"hmac-under-cookie-secret-base64":         cookieSecretB64,
+		"hmac-under-cookie-secret-bytes":          dec(cookieSecretB64),
+		"hmac-under-code-key-base64":              codeKeyB64,
+		"hmac-under-code-key-bytes":               dec(codeKeyB64),
+		"hmac-under-word-secret":                  "secret",
+		"hmac-under-word-changeme":                "changeme",
+		"hmac-under-word-null":                    "null",
+		"hmac-under-word-undefined":               "undefined",
+		"hmac-under-secret-one-char-case-flipped": flipOneCase(secret),
+		"hmac-under-secret-minus-last-char":       secret[:len(secret)-1],
+		"hmac-under-secret-plus-newline":          secret + "\n",
+		"hmac-under-secret-doubled":               secret + secret,
+		"hmac-under-secret-lowercased":            strings.ToLower(secret),
+		"hmac-under-secret-uppercased":            strings.ToUpper(secret),
+		"hmac-under-secret-sha256-hex":            hex.EncodeToString(sum[:]),
+	}
+}
+
+// spell writes MAC bytes in one of the base64 spellings the endpoint might accept.
+func spell(r *rand.Rand, m []byte) string {
+	switch r.Intn(10) {
+	case 0, 1:
+		return base64.StdEncoding.EncodeToString(m)
+	case 2:
+		return base64.RawURLEncoding.EncodeToString(m)
+	case 3:
+		s := base64.URLEncoding.EncodeToString(m)
+		return s[:len(s)/2] + "\n" + s[len(s)/2:]
+	}
+	return base64.URLEncoding.EncodeToString(m)
 }
 
 // sigClass coarsens a variant for signatures.
@@ -395,12 +467,19 @@ func sigClass(v string) string {
 
 // makeSig builds signature variant v for (uri, ts string); tsCanon is the decimal form of the parsed
 // timestamp ("" when ts is not an integer). otherURI / otherTS feed the mismatch variants.
-func makeSig(r *rand.Rand, v, secret, clientID, uri, ts, tsCanon, otherURI, otherTS string) string {
+func makeSig(r *rand.Rand, v, secret string, alt map[string]string, uri, ts, tsCanon, otherURI, otherTS string) string {
 	signedTS := tsCanon
 	if signedTS == "" {
 		signedTS = ts
 	}
 	m := mac256(secret, uri+signedTS)
+	if strings.HasPrefix(v, "hmac-under-") {
+		key, ok := alt[v]
+		if !ok {
+			panic("unknown key variant " + v)
+		}
+		return spell(r, mac256(key, uri+signedTS))
+	}
 	switch v {
 	case "valid":
 		return base64.URLEncoding.EncodeToString(m)
@@ -443,8 +522,14 @@ func makeSig(r *rand.Rand, v, secret, clientID, uri, ts, tsCanon, otherURI, othe
 		b := make([]byte, 32)
 		r.Read(b)
 		return base64.URLEncoding.EncodeToString(b)
-	case "client-id-as-key":
-		return base64.URLEncoding.EncodeToString(mac256(clientID, uri+signedTS))
+	case "sha512", "sha512-first-32-bytes":
+		h := hmac.New(sha512.New, []byte(secret))
+		h.Write([]byte(uri + signedTS))
+		b := h.Sum(nil)
+		if v == "sha512-first-32-bytes" {
+			b = b[:32]
+		}
+		return spell(r, b)
 	case "unkeyed-sha256":
 		s := sha256.Sum256([]byte(uri + signedTS))
 		return base64.URLEncoding.EncodeToString(s[:])
